@@ -29,6 +29,7 @@ macro_rules! harnesses {
 harnesses! {
     h_c14_life_s1 => life(1), h_c14_life_s3 => life(3), h_c14_life_s0 => life(0), h_c14_life_s2 => life(2), h_c14_life_s7 => life(7),
     h_c14_child => child(),
+    h_c12_invoke_bad => invoke_bad(),
 }
 
 const CHILD_DOC: &str = "<scxml version=\"1.0\" datamodel=\"null\" initial=\"c\"><state id=\"c\"/></scxml>";
@@ -385,4 +386,42 @@ fn child() {
     // (the executor keeps the finished session in its table: FinishMode::DISPOSE does nothing in this version; not part of C14)
     let _ = child_id;
     vnd_obs(1, got.len() as u64);
+}
+
+/// C12: an <invoke> whose inline content the reader rejects "cannot be started": the parent (whose thread runs this code) must get
+/// an error back, not a panic.  The documents are well-formed XML; the reader reports each of them as non-conformant.
+const BAD_DOCS: [&str; 8] = [
+    "<scxml version=\"1.0\" datamodel=\"null\" initial=\"c\"><state id=\"c\"><transition type=\"bogus\" event=\"e\" target=\"c\"/></state></scxml>",
+    "<scxml version=\"1.0\" datamodel=\"null\"><state id=\"c\" initial=\"d\"><initial><transition target=\"d\"/></initial><state id=\"d\"/></state></scxml>",
+    "<scxml version=\"1.0\" datamodel=\"null\" binding=\"sometimes\"><state id=\"c\"/></scxml>",
+    "<scxml version=\"1.0\" datamodel=\"null\"><scxml><state id=\"c\"/></scxml></scxml>",
+    "<scxml version=\"1.0\" datamodel=\"null\"><state id=\"c\"><onentry><assign location=\"x\" expr=\"1\">2</assign></onentry></state></scxml>",
+    "<scxml version=\"1.0\" datamodel=\"null\"><raise event=\"e\"/><state id=\"c\"/></scxml>",
+    "<scxml version=\"1.0\" datamodel=\"null\"><state id=\"c\"><onentry><send/><foreach item=\"i\"/></onentry></state></scxml>",
+    "<scxml version=\"1.0\" datamodel=\"null\"><state id=\"c\"><transition event=\"e\" target=\"nowhere\"/></state></scxml>",
+];
+
+fn invoke_bad() {
+    let k = vnd_range(0, 8, 1) as usize;
+    let ex = FsmExecutor::new_without_io_processor();
+    let pg = create_global_data_arc();
+    {
+        let mut l = pg.lock().unwrap();
+        l.session_id = 2;
+        let sender = l.externalQueue.sender.clone();
+        let mut s = ScxmlSession::new_without_join_handle(2, sender);
+        s.global_data = pg.clone();
+        ex.state.lock().unwrap().sessions.insert(2, s);
+    }
+    let doc = if k < 8 { BAD_DOCS[k] } else { CHILD_DOC };
+    let mut ex2 = ex.clone();
+    let res = ex2.execute_with_data_from_xml(doc, ActionWrapper::new(), &[], Some(2), &"k1".to_string(), FinishMode::DISPOSE);
+    // reached = the call came back to the invoking session thread (a panic inside ends the path before this point)
+    vnd_cover(1220);
+    vnd_check(1220, k < 8 || res.is_ok());
+    vnd_obs(1, if res.is_ok() { 1 } else { 0 });
+    // the executor stays usable: its state lock is neither held nor poisoned
+    let alive = ex.state.lock().is_ok();
+    vnd_check(1221, alive);
+    if let Ok(session) = res { std::mem::forget(session); }
 }
